@@ -11,7 +11,8 @@ const std::vector<std::string> OPS = {
     "get_chunk", "put_chunk", "get_atmost", "put_atmost", "get_octet", "put_octet",
     "cbc", "n_cbc", "drain_cbc", "sts_some", "sts_atmost", "sts_n", "sts_drain",
     "some_aux", "atmost_aux", "n_aux", "drain_aux",
-    "some_gb", "atmost_gb", "n_gb", "drain_gb"};   // sts_* with a source that implements the getbuffer extension (it lends its own window)
+    "some_gb", "atmost_gb", "n_gb", "drain_gb",
+    "zero_to_sink", "src_to_null", "empty_get"};   // the library's trivial endpoints (source_zero, sink_null, source_empty) on one side   // sts_* with a source that implements the getbuffer extension (it lends its own window)
 
 // the long haul: 2^32 and more octets really moved one by one (thorough tier, one plan per batch). Octet drivers that compute the
 // stream instead of storing it and log nothing per call - each octet still costs a real source call and a real sink call.
@@ -36,7 +37,7 @@ struct EpHarness : Harness {
     std::vector<std::string> props() const override { return {"C17"}; }
     std::vector<std::string> probes(const std::string &) const override {
         return {"eintr_retried", "eagain_retried", "zero_return_retried", "partial_then_rest", "hard_error_after_prefix", "octet_driver_through_chunk_api",
-                "chunk_driver_through_octet_api", "aux_smaller_than_n_multiple_rounds", "drain_end_mid_chunk", "drain_to_end_of_stream", "invalid_count_refused", "source_lends_its_buffer", "count_of_64k_octets_or_more_really_moved", "huge_transfer_in_one_call", "huge_transfer_in_pieces", "huge_piece_of_4gib_or_more"};
+                "chunk_driver_through_octet_api", "aux_smaller_than_n_multiple_rounds", "drain_end_mid_chunk", "drain_to_end_of_stream", "invalid_count_refused", "source_lends_its_buffer", "stream_in_library_buffer_source", "stream_in_library_chunk_source", "output_in_library_buffer_sink", "chunk_list_with_empty_chunk", "trivial_endpoint", "count_of_64k_octets_or_more_really_moved", "huge_transfer_in_one_call", "huge_transfer_in_pieces", "huge_piece_of_4gib_or_more"};
     }
     uint64_t runs(const std::string &, const Tier &t) const override { return t.thorough() ? 12000000 : 3000000; }
     unsigned time_limit(const Json &plan) const override { const Json &ops = plan.get("ops"); for (size_t i = 0; i < ops.size(); ++i) if (ops.at(i).gets("op") == "n_cbc_long") return 1500; return 60; }
@@ -47,7 +48,7 @@ struct EpHarness : Harness {
                     "behaviour scripts over {k,rest,0,-EINTR,-EAGAIN,hard errno}; generated from the per-run seed; a run is "
                     "non-trivial when at least one API call reached a driver; distinct = distinct execution fingerprints "
                     "(FNV-1a over every driver call (n, result, cursor) and every API result)";
-        Json real = Json::arr(); for (const char *s : {"src/endpoints/core.c", "src/byte-buffer.c (byte_buffer_rewind/rest via sts_*_aux)"}) real.push(s);
+        Json real = Json::arr(); for (const char *s : {"src/endpoints/core.c", "src/byte-buffer.c (byte_buffer_rewind/rest via sts_*_aux)", "src/endpoints/buffer.c (source_from_buffer, source_from_chunks, sink_to_buffer behind the scripted drivers in 1 plan of 4 each)", "src/endpoints/trivial.c (source_zero, source_empty, sink_null)"}) real.push(s);
         Json stubs = Json::arr(); for (const char *s : {"scripted source driver (octet or chunk style)", "scripted recording sink driver (octet or chunk style)"}) stubs.push(s);
         d["real"] = real; d["stubs"] = stubs;
         Json as = Json::arr();
@@ -138,6 +139,15 @@ struct EpHarness : Harness {
         // stream usually long enough for everything; sometimes it ends early (end-of-stream paths)
         int64_t len = r.chance(1, 5) ? r.range(0, need) : need + r.range(0, 12);
         p["len"] = (long long)len;
+        // the library's own endpoints behind the scripted drivers: the stream lives in a byte buffer or a chunk list, the sink is a byte buffer
+        if (r.chance(1, 4)) {
+            Json rs = Json::obj(); rs["kind"] = r.chance(1, 3) ? 1 : 2;
+            Json cuts = Json::arr(); int nc = (int)r.range(1, 6);
+            for (int i = 0; i < nc; ++i) { Json t3 = Json::arr(); t3.push((long long)(r.chance(1, 4) ? 0 : r.range(1, len < 4 ? 4 : len))); t3.push((long long)(r.chance(1, 2) ? 0 : r.range(1, 3))); t3.push((long long)(r.chance(1, 2) ? 0 : r.range(1, 3))); cuts.push(t3); }
+            rs["cuts"] = cuts; rs["pre"] = (long long)(r.chance(1, 2) ? 0 : r.range(1, 4));
+            p["rsrc"] = rs;
+        }
+        if (r.chance(1, 4)) p["rsnk"] = (long long)(r.chance(1, 3) ? r.range(0, need) : need + r.range(0, 16));
         return p;
     }
 
@@ -183,6 +193,44 @@ struct EpHarness : Harness {
         R.src.data.resize((size_t)len);
         for (size_t i = 0; i < (size_t)len; ++i) R.src.data[i] = stream_octet(i);
         R.src.bind(&R.source); R.snk.bind(&R.sink);
+        // ---- optionally the library's own buffer endpoints carry the stream / collect the output
+        std::vector<std::unique_ptr<GuardedBlock>> blocks; std::vector<ByteBuffer> bufs; ByteChunks chunks; Source inner_src; Sink inner_snk; ByteBuffer snkbuf;
+        if (plan.has("rsrc")) {
+            const Json &rs = plan.get("rsrc"); const bool one = rs.geti("kind") == 1;
+            size_t at = 0; const size_t total = R.src.data.size();
+            auto add_buf = [&](size_t take, size_t pre, size_t fre) {
+                blocks.emplace_back(new GuardedBlock(pre + take + fre ? pre + take + fre : 1));
+                GuardedBlock &g = *blocks.back();
+                for (size_t i = 0; i < pre; ++i) g.p[i] = 0xa7;                       // consumed earlier
+                if (take) memcpy(g.p + pre, R.src.data.data() + at, take);
+                for (size_t i = 0; i < fre; ++i) g.p[pre + take + i] = 0x7a;          // free space behind the fill mark
+                ByteBuffer b; b.data = g.p; b.size = pre + take + fre; b.used = pre + take; b.offset = pre; bufs.push_back(b);
+                at += take;
+            };
+            if (one) { int64_t pre = rs.geti("pre"); if (pre < 0) pre = 0; if (pre > 8) pre = 8; add_buf(total, (size_t)pre, 0); }
+            else {
+                const Json &cj = rs.get("cuts");
+                for (size_t i = 0; i < cj.size() && i < 12; ++i) {
+                    int64_t take = cj.at(i).ati(0, 1), pre = cj.at(i).ati(1, 0), fre = cj.at(i).ati(2, 0);
+                    if (take < 0) take = 0; if ((size_t)take > total - at) take = (int64_t)(total - at); if (pre < 0) pre = 0; if (pre > 8) pre = 8; if (fre < 0) fre = 0; if (fre > 8) fre = 8;
+                    add_buf((size_t)take, (size_t)pre, (size_t)fre);
+                    if (take == 0) COUNT("probe.chunk_list_with_empty_chunk");
+                }
+                if (at < total) add_buf(total - at, 0, 0);
+            }
+            if (one) source_from_buffer(&inner_src, &bufs[0]);
+            else { chunks.chunk = bufs.data(); chunks.chunks = bufs.size(); chunks.active = 0; source_from_chunks(&inner_src, &chunks); }
+            R.src.inner = &inner_src;
+            COUNT(one ? "probe.stream_in_library_buffer_source" : "probe.stream_in_library_chunk_source");
+        }
+        if (plan.has("rsnk")) {
+            int64_t cap = plan.geti("rsnk"); if (cap < 0) cap = 0; if (cap > (1 << 18)) cap = 1 << 18;
+            blocks.emplace_back(new GuardedBlock((size_t)cap ? (size_t)cap : 1));
+            snkbuf.data = blocks.back()->p; snkbuf.size = (size_t)cap; snkbuf.used = 0; snkbuf.offset = 0;
+            sink_to_buffer(&inner_snk, &snkbuf);
+            R.snk.inner = &inner_snk; R.snk.inner_bb = &snkbuf;
+            COUNT("probe.output_in_library_buffer_sink");
+        }
         const Json &ops = plan.get("ops");
         for (size_t oi = 0; oi < ops.size(); ++oi) {
             const Json &o = ops.at(oi);
@@ -190,7 +238,10 @@ struct EpHarness : Harness {
             R.site = o.gets("op");
             run_op(R, o);
             c.ev(EV_NOTE, oi, R.src.pos, R.snk.got.size());
+            if (R.src.inner_overrun) { c.fail("realsource.overrun", "the library's buffer source handed out more than asked for / more than the stream holds"); break; }
         }
+        if (plan.has("rsnk") && c.viol.empty() && !bytes_eq(snkbuf.data, R.snk.got.data(), R.snk.got.size() < snkbuf.size ? R.snk.got.size() : snkbuf.size)) c.fail("realsink.content", "the library's buffer sink changed octets it had stored earlier");
+        if (plan.has("rsnk") && c.viol.empty()) { for (auto &b : blocks) if (b->p == snkbuf.data && !b->unchanged_outside(0, snkbuf.used <= snkbuf.size ? snkbuf.used : snkbuf.size)) c.fail("realsink.bounds", "the library's buffer sink wrote outside its filled region"); }
     }
 
     void run_op(Run &R, const Json &o) {
@@ -351,6 +402,44 @@ struct EpHarness : Harness {
                 }
                 R.resync();
             }
+            return;
+        }
+
+        if (op == "zero_to_sink" || op == "src_to_null" || op == "empty_get") {
+            if (invalid) n = 1;
+            if (n > 4096) n = 4096;
+            COUNT("probe.trivial_endpoint");
+            if (op == "empty_get") {
+                GuardedBlock dst(n);
+                finished = WITH_BUDGET(c, budget, rc = source_get_chunk(&source_empty, dst.p, n));
+                c.ev(EV_API, 12, (uint64_t)rc, 0);
+                if (!finished || rc != -ENODATA) R.fail("trivial", "reading from the empty source returned %zd, expected -ENODATA", rc);
+                if (!dst.unchanged_outside(0, 0)) R.fail("trivial", "the empty source wrote to the destination");
+                // the other two, through the chunk API with the whole count at once
+                memset(dst.p, 0xff, n); dst.snap();
+                finished = WITH_BUDGET(c, budget, rc = source_get_chunk(&source_zero, dst.p, n));
+                bool allzero = true; for (size_t i = 0; i < n; ++i) if (dst.p[i] != 0) allzero = false;
+                if (!finished || rc != (ssize_t)n || !allzero) R.fail("trivial", "reading %zu octets from the zero source returned %zd / not all octets are zero", n, rc);
+                finished = WITH_BUDGET(c, budget, rc = sink_put_chunk(&sink_null, dst.p, n));
+                if (!finished || rc != (ssize_t)n) R.fail("trivial", "writing %zu octets to the null sink returned %zd", n, rc);
+                return;
+            }
+            if (op == "zero_to_sink") {
+                finished = WITH_BUDGET(c, budget + 8 * n, rc = sts_n_cbc(&source_zero, &R.sink, n));
+                c.ev(EV_API, 13, (uint64_t)rc, R.snk.got.size());
+                if (!finished) { R.fail("noprogress", "no return"); R.resync(); return; }
+                std::vector<uint8_t> zeros(n, 0);
+                int64_t hard = Run::first_hard(R.snk.errors);
+                if (rc < 0) { if (!R.snk.saw_error(rc)) R.fail("errorsource", "returned %zd which no driver produced", rc); if (!R.sink_is_exp_plus_prefix_of(zeros)) R.fail("prefix", "sink does not hold a prefix of the zero octets"); }
+                else if (hard == 0 && (rc != (ssize_t)n || !R.sink_is_exp_plus(zeros))) R.fail("trivial", "asked for %zu zero octets: returned %zd, sink received %zu new octets / not all zero", n, rc, R.snk.got.size() - R.exp.size());
+                R.resync();
+                return;
+            }
+            finished = WITH_BUDGET(c, budget + 8 * n, rc = sts_n_cbc(&R.source, &sink_null, n));
+            c.ev(EV_API, 14, (uint64_t)rc, R.src.pos);
+            if (!finished) { R.fail("noprogress", "no return"); return; }
+            if (rc < 0) { if (!R.src.saw_error(rc)) R.fail("errorsource", "returned %zd which no driver produced", rc); }
+            else if (rc != (ssize_t)n || R.src.pos - sp0 != n) R.fail("trivial", "asked to discard %zu octets: returned %zd, source handed out %zu", n, rc, R.src.pos - sp0);
             return;
         }
 
